@@ -385,7 +385,19 @@ def directed_drop_all():
     return progs, {"njob": 3, "keep_going": True}, 0
 
 
-DIRECTED = {"nth_collision": directed_nth_collision, "late_cycle": directed_late_cycle,
+def directed_drop_slow():
+    """Requests on connections that are closed at once while the director is slow: the hash jobs that
+    amend_step waits for between its transactions take seconds (large files, a busy machine), so the
+    handler is still at work long after its peer has gone.  It must finish all the same."""
+    progs = []
+    for k in range(2):
+        progs.append([{"a": "drop", "name": "amend_step", "args": [["f2", "f3"][k:k + 1], [], [f"q{k}"], []],
+                       "when": "sent", "die": True}])
+    return progs, {"njob": 2, "keep_going": True,
+                   "thread_delay": {"p": 1.0, "min": 3.4, "max": 4.2, "seed": 5}}, 0
+
+
+DIRECTED = {"drop_slow": directed_drop_slow, "nth_collision": directed_nth_collision, "late_cycle": directed_late_cycle,
             "forbidden_target": directed_forbidden_target, "drop_all": directed_drop_all}
 
 
